@@ -695,4 +695,15 @@ theorem cpioRead_newc_entries (es : List (Entry × List (List Nat))) (hes : ∀ 
       · rw [hwe]; simp only [List.nil_append]; exact hread
       · rw [List.filter_cons, if_neg (by simp [hacc])]; exact hall
 
+/-! ### what the format description calls representable is accepted -/
+
+theorem newcFormatHex_fits (v : Int) (d : Nat) (h : 0 ≤ v ∧ v.toNat < 16 ^ d) : (newcFormatHex v d).1 = false := by
+  rw [newcFormatHex_eq, if_pos h]
+
+theorem devMajorN_lt (u : Nat) : devMajorN u < 4294967296 := by unfold devMajorN; omega
+theorem devMinorN_lt (u : Nat) : devMinorN u < 4294967296 := by unfold devMinorN; omega
+
+theorem inR_iff (v lo hi : Int) : inR v lo hi = true ↔ lo ≤ v ∧ v ≤ hi := by
+  unfold inR; simp
+
 end LA.Codec
